@@ -70,11 +70,12 @@ class Ctx:
 
     # ---------------------------------------------------------------- model checking
     def mc(self, module, cfg=None, *, expect=None, workers=8, coverage=True, require_actions=(), env=None,
-           timeout=3600, note='', xmx='4g', extra=(), count=True):
+           timeout=3600, note='', xmx='4g', extra=(), count=True, overrides=None):
         """Exhaustive TLC run.  expect=None: must pass.  expect='<substr>': negative control, must be violated
         with a violation name containing the substring.  Returns TLCResult."""
-        res = tlc.run_tlc(module, cfg, workers=workers, coverage=coverage, env=env, timeout=timeout, xmx=xmx, extra=extra)
-        entry = dict(module=module, cfg=cfg or module + '.cfg', states=res.distinct, generated=res.generated,
+        res = tlc.run_tlc(module, cfg, workers=workers, coverage=coverage, env=env, timeout=timeout, xmx=xmx, extra=extra,
+                          overrides=overrides)
+        entry = dict(module=module, cfg=(cfg or module + '.cfg') + (' ' + canon(overrides) if overrides else ''), states=res.distinct, generated=res.generated,
                      depth=res.depth, wall_s=round(res.wall_s, 1), violated=res.violated, note=note)
         if coverage and res.coverage:
             entry['action_coverage'] = {k: v[1] for k, v in res.coverage.items()}
